@@ -102,6 +102,10 @@ func (h *OperationProvider) GetTxnOperations(t *txn.SidetreeTxn) ([]*operation.A
 		return nil, err
 	}
 
+	if err := h.validateURI(anchorData.CoreIndexFileURI); err != nil {
+		return nil, errors.Wrapf(err, "core index URI")
+	}
+
 	cif, err := h.getCoreIndexFile(anchorData.CoreIndexFileURI, t.AlternateSources...)
 	if err != nil {
 		return nil, err
